@@ -902,6 +902,9 @@ WRONG_FORMS = {
     'difference is component-wise through binop': [('Quaternion(left.binop(right, lambda x, y: y - x))', 'the difference is right - left'),
                                                    ('Quaternion(right.binop(left, lambda x, y: x - y))', 'the difference is right - left'),
                                                    ('Quaternion(left.binop(right, lambda x, y: x + y))', 'the difference adds the components')],
+    'twist unit through unittwist / unittwist2': [('self.__class__(self)', 'the twist is returned unscaled on this path: isunit tests the length of the WHOLE coordinate vector, a unit twist has a unit rotational part (or, if irrotational, a unit translational part)'),
+                                                  ('self', 'the twist itself is returned unscaled on this path'),
+                                                  ('self.__class__(self.S)', 'the twist is returned unscaled on this path')],
     'twist inverse is negation': [('self.__class__([t for t in self.data])', 'inverse returns the twist itself')],
     'twist of a pose is its logarithm': [('Twist3(self.log())', 'the twist=True option is not passed to log(): the matrix logarithm is handed to the twist constructor'),
                                          ('Twist2(self.log())', 'the twist=True option is not passed to log(): the matrix logarithm is handed to the twist constructor'),
@@ -1612,7 +1615,10 @@ def tables_c02(run):
         cx = Ctx(run, key)
         r = _single_return_value(cx)
         if r is None:
-            run.error('R16: %s: expected a single return' % key)
+            # a stacked-array arm next to the single-matrix arm: each is held to the structured inverse
+            res = check_batched_inverse(run, key, n, rule=RULE, param=cx.pname(0))
+            if res is None:
+                run.error('R16: %s: expected a single return' % key)
             continue
         rv = canon(cx.fi, r.value, inline=False)
         if matches('inv(%s)' % cx.pname(0), rv) is not None:
@@ -1651,7 +1657,7 @@ ROUTES_C02 = [
     ('super_pose:SMPose.__truediv__', 'division composes with the inverse of the right operand', ['left.__class__(left._op2(right.inv(), lambda x, y: x @ y), check=False)'], 'any'),
     ('super_pose:SMPose.__pow__', 'integer power by matrix_power on every element', ['self.__class__([matrix_power(x, n) for x in self.data], check=False)'], 'return'),
     ('pose3d:SO3.inv', 'inverse of a rotation is its transpose', ['SO3(self.A.T, check=False)', 'SO3([x.T for x in self.A], check=False)', 'SO3([x.T for x in self.data], check=False)', 'SO3([x.A.T for x in self], check=False)'], 'return'),
-    ('pose3d:SE3.inv', 'SE3 inverse through trinv', ['SE3(trinv(self.A), check=False)', 'SE3([trinv(x) for x in self.A], check=False)'], 'return'),
+    ('pose3d:SE3.inv', 'SE3 inverse through trinv', ['SE3(trinv(self.A), check=False)', 'SE3([trinv(x) for x in self.A], check=False)', 'SE3(list(trinv(array(self.A))), check=False)', 'SE3(trinv(array(self.A)), check=False)', 'SE3([trinv(x) for x in self.data], check=False)'], 'return'),
     ('pose2d:SO2.inv', 'inverse of a rotation is its transpose', ['SO2(self.A.T)', 'SO2([x.T for x in self.A])', 'SO2(self.A.T, check=False)', 'SO2([x.T for x in self.A], check=False)', 'SO2([x.T for x in self.data])', 'SO2([x.T for x in self.data], check=False)', 'SO2([x.A.T for x in self])'], 'return'),
     ('pose2d:SE2.inv', 'SE2 inverse [[R^T, -R^T t],[0,1]]', ['SE2(rt2tr(self.R.T, -self.R.T @ self.t))', 'SE2([rt2tr(x.R.T, -x.R.T @ x.t) for x in self])',
                                                              'SE2(trinv2(self.A))', 'SE2([trinv2(x) for x in self.A])',
@@ -3243,7 +3249,7 @@ class _Unbatch(ast.NodeTransformer):
         return n
 
 
-def check_batched_inverse(run, key, n, rule='R15'):
+def check_batched_inverse(run, key, n, rule='R15', param=None):
     """If the multi-valued branch of an SE(n) inverse is written on the stacked array, normalise it to the per-element idiom and
     compare with the structured inverse  [[R^T, -R^T t], [0, 1]]  (R = T[:n,:n], t = T[:n,n]) written into zeros."""
     f = run.prog.func(key)
@@ -3266,6 +3272,8 @@ def check_batched_inverse(run, key, n, rule='R15'):
             if matches('array(%s.A)' % f.selfname, c) is not None or matches('asarray(%s.A)' % f.selfname, c) is not None or \
                     matches('stack(%s.A)' % f.selfname, c) is not None or matches('array(%s.data)' % f.selfname, c) is not None:
                 srcname = st.targets[0].id
+    if srcname is None and param is not None and matches('zeros(%s.shape, *_R)' % param, canon(fi, alloc.value, inline=False)) is not None:
+        srcname = param          # the stack is the argument itself
     if srcname is None:
         run.error('%s: %s: stacked-array branch without a recognised `T = np.array(self.A)`' % (rule, key))
         return False
